@@ -397,6 +397,20 @@ def reuse_designs():
                 py4hw.Reg(dut, 'r%d' % k, d, q, reset=r, reset_value=rv)
             return [d, r], qs
         out.append(('Reg %d bits, five reset values' % w, f))
+    # inout ports: the bidirectional wire is a port of the generated block and is used by its children (inlined BidirBuf, or a
+    # structural child that takes it as its own inout port)
+    for w, nested in ((1, False), (8, False), (1, True), (4, True)):
+        def f(hw, dut, w=w, nested=nested):
+            pin = hw.wire('pin', w); pout = hw.wire('pout', w); poe = hw.wire('poe'); pad = hw.bidir_wire('sda', w)
+            dut.addInOut('pad', pad)
+            if nested:
+                M = cosim.Dut.cls('Mid')
+                mid = M(dut, 'mid'); mid.addOut('pin', pin); mid.addIn('pout', pout); mid.addIn('poe', poe); mid.addInOut('io', pad)
+                py4hw.BidirBuf(mid, 'buf', pin, pout, poe, pad)
+            else:
+                py4hw.BidirBuf(dut, 'buf', pin, pout, poe, pad)
+            return [pout, poe], [pin]
+        out.append(('inout pad %d bits%s' % (w, ' through a child' if nested else ''), f))
     # flag outputs on wires of different widths under one operand width (a constructor that accepts the wide flag must not bind it
     # to a body emitted for the 1-bit one; refusing the wide flag, as Sign does, is fine)
     for fw in (2, 4):
